@@ -25,6 +25,13 @@ impl<K, V> HashMap<K, V> {
     pub fn iter(&self) -> impl Iterator<Item = (&K, &V)> { self.items.iter().map(|kv| (&kv.0, &kv.1)) }
 }
 
+impl<K, V> HashMap<K, V> {
+    /// Harness-only: a map whose entries live in a caller-owned (stack) array.  It must never be dropped or grown
+    /// (harnesses keep it inside ManuallyDrop): with the entries on the stack CBMC sees their discriminants as
+    /// constants instead of exploring every variant of every entry.
+    pub unsafe fn from_raw_entries(ptr: *mut (K, V), len: usize) -> Self { HashMap { items: Vec::from_raw_parts(ptr, len, len) } }
+}
+
 impl<K, V> Default for HashMap<K, V> {
     fn default() -> Self { HashMap::new() }
 }
